@@ -86,12 +86,14 @@ pub struct Deploy {
     pub log_level: String,
     /// further entries of the server's configuration file (the file is a list: one process serves them all)
     pub extra_server_entries: Vec<Value>,
+    /// WebSocket path of both sides: None = "/ws"; Some("") = no `path` key at all (the default of both programs)
+    pub ws_path: Option<String>,
 }
 
 impl Deploy {
     pub fn new(cfg: Cfg, transport: Transport, udp: bool, workers: usize, dir: &Path) -> Deploy {
         std::fs::create_dir_all(dir).ok();
-        Deploy { cfg, transport, server_port: free_port(), client_port: free_port(), client_mode: if udp { "tcp_and_udp".into() } else { "tcp".into() }, server_mode: None, udp, workers, dir: dir.to_path_buf(), log_level: "info".into(), extra_server_entries: Vec::new() }
+        Deploy { cfg, transport, server_port: free_port(), client_port: free_port(), client_mode: if udp { "tcp_and_udp".into() } else { "tcp".into() }, server_mode: None, udp, workers, dir: dir.to_path_buf(), log_level: "info".into(), extra_server_entries: Vec::new(), ws_path: None }
     }
 
     fn certs(&self) -> PathBuf {
@@ -109,6 +111,18 @@ impl Deploy {
         }
     }
 
+    fn ws_section(&self, client: bool) -> Value {
+        let mut w = match self.ws_path.as_deref() {
+            None => json!({"path": "/ws"}),
+            Some("") => json!({}),
+            Some(p) => json!({"path": p}),
+        };
+        if client {
+            w["header"] = json!({"Host": "localhost"});
+        }
+        w
+    }
+
     pub fn server_entry(&self) -> Value {
         let mut e = self.cfg.server_entry("127.0.0.1", self.server_port, &self.server_mode_str());
         let c = self.certs();
@@ -116,10 +130,10 @@ impl Deploy {
         match self.transport {
             Transport::Tcp => {}
             Transport::Tls => e["ssl"] = tls,
-            Transport::Ws => e["ws"] = json!({"path": "/ws"}),
+            Transport::Ws => e["ws"] = self.ws_section(false),
             Transport::Wss => {
                 e["ssl"] = tls;
-                e["ws"] = json!({"path": "/ws"});
+                e["ws"] = self.ws_section(false);
             }
             Transport::Quic => e["quic"] = tls,
         }
@@ -130,7 +144,7 @@ impl Deploy {
         let mut e = self.cfg.client_entry("127.0.0.1", self.server_port);
         let c = self.certs();
         let tls = json!({"certificateFile": c.join("ca.crt"), "serverName": "localhost"});
-        let ws = json!({"path": "/ws", "header": {"Host": "localhost"}});
+        let ws = self.ws_section(true);
         match self.transport {
             Transport::Tcp => {}
             Transport::Tls => e["ssl"] = tls,
